@@ -154,6 +154,58 @@ def underdim(coll, o):
     return n_ell == 1 and len(o["shape"]) + 1 < len(lay)
 
 
+def expected_stored(coll, name, arr, layout, resize):
+    """What set(name, arr, layout, resize) must store, stated independently of the implementation:
+    the inserted array itself; with resize=True each named axis is centre padded / cropped (zeros) to the
+    size that the OTHER stored arrays give to that axis name, and left alone when no other array carries it.
+    None when the expectation is not defined (invalid layout, too few axes, others disagree)."""
+    lay = layout
+    if lay is None:
+        lay = list(coll._layouts[name]) if name in coll._layouts else [Ellipsis]
+    lay = [Ellipsis if x == "..." else x for x in lay]
+    if sum(1 for x in lay if x is Ellipsis) != 1 or arr.ndim + 1 < len(lay):
+        return None
+    out = np.array(arr)
+    if not resize:
+        return out
+    others = {}
+    for n in coll._arrays:
+        if n == name:
+            continue
+        raw, l2 = coll._arrays[n], list(coll._layouts[n])
+        if sum(1 for x in l2 if x is Ellipsis) != 1 or raw.ndim + 1 < len(l2):
+            return None
+        st2 = l2.index(Ellipsis)
+        for i, ax in enumerate(l2):
+            if isinstance(ax, str):
+                others.setdefault(ax, set()).add(raw.shape[i if i < st2 else raw.ndim - len(l2) + i])
+    st = lay.index(Ellipsis)
+    for i, ax in enumerate(lay):
+        if isinstance(ax, str) and ax in others:
+            if len(others[ax]) != 1:
+                return None
+            pos = i if i < st else out.ndim - len(lay) + i
+            size = next(iter(others[ax]))
+            if out.shape[pos] != size:
+                out = centre_resized(out, size, pos, 0)
+    return out
+
+
+def assigned_in_place(raw, val):
+    """raw[...] = val when numpy can broadcast val into raw (leading unit axes of val may be dropped), else None"""
+    v = np.asarray(val)
+    while v.ndim > raw.ndim and v.shape[0] == 1:
+        v = v.reshape(v.shape[1:])
+    try:
+        return np.array(np.broadcast_to(v, raw.shape))
+    except ValueError:
+        return None
+
+
+def same_array(a, b):
+    return a is not None and b is not None and tuple(a.shape) == tuple(b.shape) and np.array_equal(a, b)
+
+
 def inv_violation(coll, app):
     """The invariant of the property evaluated on the implementation (None = holds)."""
     S = tuple(coll.shape)
@@ -263,11 +315,24 @@ class Runner:
                 kw = {}
                 if o["layout"] is not None:
                     kw["layout"] = py_layout(o["layout"])
-                coll.set(NAMES[o["name"]], mk_arr(o["shape"], o["vals"]), resize=o["resize"], check=o["check"], **kw)
+                arr = mk_arr(o["shape"], o["vals"])
+                exp = expected_stored(coll, NAMES[o["name"]], arr, o["layout"], o["resize"])
+                coll.set(NAMES[o["name"]], arr, resize=o["resize"], check=o["check"], **kw)
                 r = None
+                if exp is not None and not same_array(coll._arrays.get(NAMES[o["name"]]), exp):
+                    why = "stored-array-differs-from-inserted"
             elif k == "update":
-                coll.update(NAMES[o["name"]], mk_arr(o["shape"], o["vals"]), resize=o["resize"])
+                arr = mk_arr(o["shape"], o["vals"])
+                nm = NAMES[o["name"]]
+                exp = None
+                if nm in coll._arrays:
+                    exp = assigned_in_place(coll._arrays[nm], arr)
+                    if exp is None:
+                        exp = expected_stored(coll, nm, arr, None, o["resize"])
+                coll.update(nm, arr, resize=o["resize"])
                 r = None
+                if exp is not None and not same_array(coll._arrays.get(nm), exp):
+                    why = "stored-array-differs-from-inserted"
             elif k == "get":
                 r = coll.get(NAMES[o["name"]], broadcast=o["bcast"])
             elif k == "pop":
@@ -484,6 +549,62 @@ def gen_history(rng, length, allow_other_layouts=True):
     return {"app": app, "ops": ops}
 
 
+NAMED_LAYOUTS = [["...", "n"], ["...", "n", "m"], ["...", "n", 3], ["n", "..."], ["...", "m"], [None, "...", "n"]]
+
+
+def gen_named_history(rng, length):
+    """pop / set(resize=True) / set(resize=False) / update / resize histories in which a named axis is
+    sometimes carried by one array only (sole owner) and sometimes shared"""
+    app = rng.random() < 0.5
+    runner = Runner(app)
+    ops = []
+    for _ in range(length):
+        coll = runner.main
+        r = rng.random()
+        stored = [NAMES.index(n) for n in coll._arrays]
+        if r < 0.62 or not stored:
+            name = rng.choice(stored) if stored and rng.random() < 0.5 else rng.randrange(3)
+            keep = NAMES[name] in coll._arrays and rng.random() < 0.5
+            lay = ["..." if x is Ellipsis else x for x in coll._layouts[NAMES[name]]] if keep else list(rng.choice(NAMED_LAYOUTS))
+            others = {}
+            for n in coll._arrays:
+                if n != NAMES[name]:
+                    raw, l2 = coll._arrays[n], list(coll._layouts[n])
+                    st2 = l2.index(Ellipsis)
+                    for i, ax in enumerate(l2):
+                        if isinstance(ax, str) and raw.ndim + 1 >= len(l2):
+                            others[ax] = raw.shape[i if i < st2 else raw.ndim - len(l2) + i]
+            def dim(x):
+                if isinstance(x, int):
+                    return x
+                if isinstance(x, str):
+                    return others[x] if x in others and rng.random() < 0.45 else rng.choice([1, 2, 3, 4, 5, 6, 7])
+                return rng.choice([1, 2])
+            st = lay.index("...")
+            shared = rand_shared(rng, coll.shape)[:2]
+            shape = [dim(x) for x in lay[:st]] + shared + [dim(x) for x in lay[st + 1:]]
+            o = {"op": "set", "t": "main", "name": name, "shape": shape, "layout": None if keep else lay,
+                 "resize": rng.random() < 0.6, "check": True}
+            o["vals"] = rand_vals(rng, shape)
+        elif r < 0.80:
+            o = {"op": "pop", "t": "main", "name": rng.choice(stored)}
+        elif r < 0.90:
+            name = rng.choice(stored)
+            raw = coll._arrays[NAMES[name]]
+            shape = list(raw.shape)
+            if shape and rng.random() < 0.6:
+                shape[-1] = rng.choice([1, 2, 3, 4, 5])
+            o = {"op": "update", "t": "main", "name": name, "shape": shape, "vals": rand_vals(rng, shape),
+                 "resize": rng.random() < 0.6}
+        else:
+            axs = [AXN.index(a) for a in coll.axes] or [0]
+            o = {"op": "resize", "t": "main", "ax": rng.choice(axs), "size": rng.choice([1, 2, 3, 4, 5]),
+                 "const": rng.choice([0, 9])}
+        ops.append(o)
+        runner.step(o)
+    return {"app": app, "ops": ops}
+
+
 def exhaustive_histories(maxlen):
     """all histories up to maxlen over a small alphabet on tiny shapes (both conventions)"""
     def s(name, shape, layout=None, **kw):
@@ -515,6 +636,10 @@ def corpus():
     def u(name, shape):
         n = int(np.prod(shape)) if shape else 1
         return {"op": "update", "t": "main", "name": name, "shape": shape, "vals": [0] * n, "resize": False}
+    def v(name, shape, layout, rs=False):
+        n = int(np.prod(shape)) if shape else 1
+        return {"op": "set", "t": "main", "name": name, "shape": shape, "vals": list(range(1, n + 1)),
+                "layout": layout, "resize": rs, "check": True}
     return [
         {"app": False, "ops": [{"op": "broadcast", "t": "main", "shape": [3]}, s(2, [3, 2], ["n", "..."])]},
         {"app": False, "ops": [s(0, [2]), s(1, [2]), u(0, [3])]},
@@ -525,6 +650,19 @@ def corpus():
         {"app": False, "ops": [s(0, [2, 3], ["...", "n"]), {"op": "pop", "t": "main", "name": 0}]},
         {"app": False, "ops": [s(0, [2]), {"op": "link", "app": False}, s(0, [2], t="child"),
                                {"op": "pop", "t": "main", "name": 0}, s(0, [3])]},
+    ] + [
+        # named axis carried by no other array: set(resize=True) must store exactly what is inserted
+        {"app": app, "ops": [s(1, [3, 1]), v(0, [1, 1, 5], ["...", "n"]), v(0, [1, 1, 7], None, rs=True)]}
+        for app in (False, True)
+    ] + [
+        {"app": app, "ops": [s(1, [2, 1]), v(0, [1, 1, 3], ["...", "n"]), {"op": "pop", "t": "main", "name": 0},
+                             v(2, [2, 1, 6], ["...", "n"], rs=True)]}
+        for app in (False, True)
+    ] + [
+        # control: another array carries the axis -> centre pad / crop
+        {"app": app, "ops": [v(0, [1, 5], ["...", "n"]), v(1, [1, 3], ["...", "n"], rs=True),
+                             v(2, [2, 6], ["...", "n"], rs=True)]}
+        for app in (False, True)
     ]
 
 
@@ -647,6 +785,27 @@ def statematrix_cases(ctx, n):
             if len(parts) != 2 or not np.array_equal(parts[0].states, init) or not np.array_equal(parts[1].states, init_b) \
                     or not np.array_equal(parts[0].equilibrium, np.broadcast_to(eq_full, full)):
                 bad.append((dict(case, axis=axis), "unstack"))
+            # copy(coords=<another kdim>): 'kdim' is carried by coords only -> stored exactly as given;
+            # copy(states=<another nstate>): 'nstate' is shared with equilibrium -> centre resized to it
+            lead = [1] * len(shape)
+            k1, k2 = rng.choice([1, 2, 3]), rng.choice([1, 2, 3, 4])
+            c1 = np.array(rand_vals(rng, lead + [2 * ns + 1, k1]), dtype=float).reshape(lead + [2 * ns + 1, k1])
+            c2 = np.array(rand_vals(rng, lead + [2 * ns + 1, k2]), dtype=float).reshape(lead + [2 * ns + 1, k2])
+            smc = StateMatrix(init, equilibrium=eq, coords=c1, check=False)
+            cpc = smc.copy(coords=c2)
+            exp_c = assigned_in_place(c1, c2)          # update(): in place when the value broadcasts into the array
+            exp_c = c2 if exp_c is None else exp_c
+            if not same_array(np.asarray(cpc.coords), exp_c) or cpc.kdim != exp_c.shape[-1] \
+                    or not same_array(np.asarray(smc.coords), c1) or not np.array_equal(cpc.states, init):
+                bad.append((dict(case, kdim=[k1, k2], coords=c2.tolist()), "copy-coords"))
+            n3 = rng.choice([0, 1, 2, 3])
+            st3 = np.array(rand_vals(rng, shape + [2 * n3 + 1, 3]), dtype=float).reshape(shape + [2 * n3 + 1, 3])
+            cps = mk().copy(st3)
+            exp_s = assigned_in_place(init.astype(complex), st3)
+            if exp_s is None:
+                exp_s = centre_resized(st3.astype(complex), 2 * ns + 1, len(shape), 0)
+            if not same_array(np.asarray(cps.states), exp_s):
+                bad.append((dict(case, nstate_new=n3, states=st3.tolist()), "copy-states"))
         except Exception as e:
             bad.append((case, "raises-%s: %s" % (type(e).__name__, str(e)[:100])))
         ctx.count(("sm", case["shape"], ns, ci), nontrivial=True)
@@ -665,6 +824,8 @@ def run(ctx):
     for i in range(150 if quick else 3000):
         cases.append(gen_history(ctx.rng, ctx.rng.randrange(2, 9) if quick else ctx.rng.randrange(2, 13),
                                  allow_other_layouts=(i % 4 != 0)))
+    for i in range(50 if quick else 1000):
+        cases.append(gen_named_history(ctx.rng, ctx.rng.randrange(2, 7)))
     if not quick:
         cases += list(exhaustive_histories(3))
     else:
